@@ -6,10 +6,11 @@ CONSTANTS
   SELS = {1}
   HOLD = TRUE
   VALS = 2
+  COVER = FALSE
   LMIN = 1
-  LMAX = 1
+  LMAX = 2
   STALL = 0
-  WMAX = 8
-  BUG = "none"
+  WMAX = 10
+  BUG = "ignore_aborted"
 INVARIANTS NoClauseBroken MemAllowed AckWithinBound OneOutstanding
 CHECK_DEADLOCK TRUE
